@@ -213,7 +213,10 @@ void vf_run(const uint8_t *data, size_t len)
     uint8_t h[HDR];
     for (size_t i = 0; i < HDR; i++) h[i] = cur.u8();
     const int entry = h[0] % 3;
-    const size_t es = ESIZE[h[1] % 8];
+    // element size: codes 0-7 = the fast-path / classic sizes; 8-199 = every size from 1 to 192 bytes (the code imposes
+    // no limit, so neither does the generator); 200-255 = a few large ones
+    static const size_t ESBIG[8] = {256, 100, 257, 1000, 333, 512, 48, 4096};
+    const size_t es = h[1] < 8 ? ESIZE[h[1]] : h[1] < 200 ? (size_t)(h[1] - 7) : ESBIG[h[1] % 8];
     const int seli = h[2] % NSEL;
     const int kw = es >= 4 ? 2 : 1;
     const uint32_t K = std::min<uint32_t>(KTAB[h[3] % NK], kw == 2 ? 30000u : 120u);
@@ -229,7 +232,7 @@ void vf_run(const uint8_t *data, size_t len)
     const uint8_t param = h[8];
     const unsigned limit = h[9] & 15;         // G1 only: max elements, canonical record order
     const bool strict = g_want_state && limit;
-    const size_t nmax = (seli == 0 || seli == 1) ? NMAX_DEEP : NMAX;
+    const size_t nmax = std::min<size_t>((seli == 0 || seli == 1) ? NMAX_DEEP : NMAX, std::max<size_t>(4, ((size_t)1 << 19) / es));   // <= 512 KiB of elements
     const cstl_sort_algorithm_t algo = (cstl_sort_algorithm_t)SELV[seli];
 
     // ---- decode the array (key indexes) and the rand() script
@@ -530,7 +533,7 @@ void vf_gen(Rng &r, std::vector<uint8_t> &out)
 {
     int seli = (int)r.below(NSEL);
     out.push_back(r.byte());                 // entry point
-    out.push_back(r.byte());                 // element size
+    out.push_back(r.chance(1, 2) ? (uint8_t)r.below(8) : r.byte());   // element size: half classic sizes, half anything up to 192 / large
     out.push_back((uint8_t)seli);            // selector
     uint32_t cls = r.below(100);
     // alphabet: small for small arrays (so values repeat), anything for large
@@ -580,7 +583,7 @@ bool vf_scope(const std::string &name, Scope &s)
     if (sscanf(name.c_str(), "arr:%d:%d:%d:%d:%d", &entry, &esi, &seli, &L, &flags) >= 4) qr = false;
     else if (sscanf(name.c_str(), "qr:%d:%d:%d:%d", &entry, &esi, &L, &flags) >= 3) { qr = true; seli = 1; }
     else return false;
-    if (L < 1 || L > 15 || entry < 0 || entry > 2 || esi < 0 || esi > 7 || seli < 0 || seli >= NSEL) return false;
+    if (L < 1 || L > 15 || entry < 0 || entry > 2 || esi < 0 || esi > 255 || seli < 0 || seli >= NSEL) return false;
     s.header = {(uint8_t)entry, (uint8_t)esi, (uint8_t)seli, 3 /* K=4 */, (uint8_t)flags, 0, 0, 0, 0, (uint8_t)L};
     for (int k = 0; k < 4; k++) { s.alphabet.push_back({0, (uint8_t)k, 0}); s.names.push_back("elem"); }
     if (qr) for (int v = 0; v < L; v++) { s.alphabet.push_back({1, (uint8_t)v, 0}); s.names.push_back("rand"); }
